@@ -40,15 +40,26 @@ def gen_case(rng, mode=None, depth=None):
         # a sampled sequence with exactly one bad item: the verdict depends on the draw
         for _ in range(6):
             child = H.gen_hint(rng, rng.choice([0, 1, 2]))
-            if rng.random() < 0.3:
+            r = rng.random()
+            if r < 0.25:
                 h = {'k': 'vtuple', 'a': [child], 't': rng.random() < 0.3}
+            elif r < 0.5:
+                h = {'k': 'iter', 'o': rng.choice(list(H.ITER_ORIGINS)), 'a': [child]}
             else:
                 h = {'k': 'seq', 'o': rng.choice(list(H.SEQ_ORIGINS)), 'a': [child]}
             try:
                 o, i = H.gen_one_bad(rng, h)
-                return h, o, 'onebad', i
             except H.CannotGenerate:
                 continue
+            # sometimes one level down: the sampled sequence is a mapping value / tuple position / optional
+            w = rng.random()
+            if w < 0.15:
+                return {'k': 'map', 'o': 'dict', 'a': [{'k': 'cls', 'n': 'str'}, h]}, {'o': 'dict', 'i': [[{'o': 'str', 'v': 'k'}, o]]}, 'onebad', i
+            if w < 0.3:
+                return {'k': 'tuple', 'a': [{'k': 'cls', 'n': 'int'}, h]}, {'o': 'tuple', 'i': [{'o': 'int', 'v': 1}, o]}, 'onebad', i
+            if w < 0.4:
+                return {'k': 'opt', 'a': [h]}, o, 'onebad', i
+            return h, o, 'onebad', i
         mode = 'viol'
     h = H.gen_hint(rng, depth or rng.choice([1, 2, 2, 3]))
     o = None
